@@ -23,7 +23,10 @@ GRID_4 = dict(M=4, L=5, nlon=12, nlat=6, radius=1.7)
 def tref_profiles(K, seed):
   rng = np.random.default_rng(seed + 17)
   return {'const': np.full(K, 1.3), 'linear': np.linspace(0.8, 1.6, K),
-          'random': np.round(rng.uniform(0.5, 2.0, K), 3)}
+          'random': np.round(rng.uniform(0.5, 2.0, K), 3),
+          # isothermal stretches inside a non-constant profile (isothermal stratosphere / repeated values): some of the couplings vanish, not all
+          'isothermal-top': np.concatenate([np.full(min(2, K), 1.1), np.linspace(1.2, 1.6, max(K - 2, 0))]),
+          'isothermal-stretch': np.array(([0.9] + [1.3] * 3 + [1.5] * K)[:K])}
 
 
 def task_pe(ctx, cfg, levels, lname, tname, tref, etas, specs_kw, with_time=False):
@@ -218,6 +221,8 @@ def make_tasks(tier, seed):
       (GRID_SMALL, 'dy3', 'linear', (1e-3, -1.0, 50.0), {}),
       (GRID_FAST, 'un4', 'random', (0.1, -1e-3), dict(R=0.7, kappa=0.2857)),
       (GRID_4, 'eq5', 'const', (1.0,), {}),
+      (GRID_SMALL, 'dy3', 'isothermal-top', (0.1, -1.0), {}),
+      (GRID_SMALL, 'eq5', 'isothermal-stretch', (0.1,), {}),
       (GRID_SMALL, [k for k in LS if k.startswith('rnd')][0], 'random', (-0.1,), dict(R=1.3, kappa=0.4)),
   ]
   if not quick:
